@@ -10,29 +10,17 @@ From V Require Import model.Base model.Ffi proofs.FfiProofs gen.FfiEnums.
 From Coq Require Import String.
 Open Scope string_scope.
 
-(* (Rust enum, leaf) on which into_c_int does not return: `e => e.into_c_int()` calls itself *)
-Definition known_diverging : list key :=
-  [ ("EventOpenOrCreateError", "SystemInFlux");
-    ("PublishSubscribeOpenOrCreateError", "SystemInFlux") ].
-
-(* (Rust enum, C variant) that is the image of two different top-level variants *)
-Definition known_top_collisions : list key :=
-  [ ("ServiceRemoveError", "INTERRUPT");          (* Interrupt and VersionMismatch *)
-    ("EventOpenOrCreateError", "C_INTERRUPT") ].  (* EventOpenError(Interrupt) and EventCreateError(Interrupt) *)
-
-(* (Rust enum, C variant) that is the image of more than one leaf: payload ignored by `(_)` *)
+(* (Rust enum, C variant) that is the image of more than one leaf: payload ignored by `(_)`.
+   (The two self-recursive SystemInFlux arms, the two top-level collisions ServiceRemoveError /
+   EventOpenOrCreateError and the zero discriminant of iox2_connection_failure_e that were listed
+   here have been repaired in /repo: 76b0be9 c6bf028 41ac4e3 e07cbfb bd7254f.) *)
 Definition known_leaf_collapses : list key :=
-  known_top_collisions ++
   [ ("SendError", "CONNECTION_ERROR");
     ("RequestSendError", "CONNECTION_ERROR");
     ("ReceiveError", "FAILED_TO_ESTABLISH_CONNECTION");
     ("ReceiveError", "UNABLE_TO_MAP_SENDERS_DATA_SEGMENT");
     ("ConnectionFailure", "FAILED_TO_ESTABLISH_CONNECTION");
     ("ConnectionFailure", "UNABLE_TO_MAP_SENDERS_DATA_SEGMENT") ].
-
-(* (Rust error enum, C variant) whose discriminant equals IOX2_OK *)
-Definition known_zero : list key :=
-  [ ("ConnectionFailure", "FAILED_TO_ESTABLISH_CONNECTION") ].
 
 (* C enums with two variants that print the same string *)
 Definition known_dup_names : list string :=
@@ -50,20 +38,37 @@ Definition known_name_clashes : list string :=
 Lemma tbl_wf : tables_wf ffi_cenums ffi_rmaps.
 Proof. apply tables_wf_b_sound. vm_cast_no_check (eq_refl true). Qed.
 
-Lemma tbl_total : forall m, In m ffi_rmaps -> total ffi_cenums known_diverging m.
-Proof. apply (all_sound _ _ _ _ (total_b_sound ffi_cenums known_diverging)). vm_cast_no_check (eq_refl true). Qed.
+Lemma tbl_total : forall m l, In m ffi_rmaps -> In l (rm_leaves m) -> exists z, leaf_code ffi_cenums l = Some z.
+Proof.
+  intros m l Hm Hl.
+  assert (T : forall m, In m ffi_rmaps -> total ffi_cenums [] m).
+  { apply (all_sound _ _ _ _ (total_b_sound ffi_cenums [])). vm_cast_no_check (eq_refl true). }
+  apply (T m Hm l Hl). intros [].
+Qed.
 
 Lemma tbl_single_cenum : forall m, In m ffi_rmaps -> single_cenum m.
 Proof. apply (all_sound _ _ _ _ single_cenum_b_sound). vm_cast_no_check (eq_refl true). Qed.
 
-Lemma tbl_injective_top : forall m, In m ffi_rmaps -> injective_top ffi_cenums known_top_collisions m.
-Proof. apply (all_sound _ _ _ _ (injective_top_b_sound ffi_cenums known_top_collisions)). vm_cast_no_check (eq_refl true). Qed.
+Lemma tbl_injective_top : forall m a b z, In m ffi_rmaps -> In a (rm_leaves m) -> In b (rm_leaves m) ->
+  leaf_code ffi_cenums a = Some z -> leaf_code ffi_cenums b = Some z -> lf_top a = lf_top b.
+Proof.
+  intros m a b z Hm Ha Hb Hza Hzb.
+  assert (T : forall m, In m ffi_rmaps -> injective_top ffi_cenums [] m).
+  { apply (all_sound _ _ _ _ (injective_top_b_sound ffi_cenums [])). vm_cast_no_check (eq_refl true). }
+  destruct (T m Hm a b z Ha Hb Hza Hzb) as [E|[]]. exact E.
+Qed.
 
 Lemma tbl_injective_leaf : forall m, In m ffi_rmaps -> injective_leaf ffi_cenums known_leaf_collapses m.
 Proof. apply (all_sound _ _ _ _ (injective_leaf_b_sound ffi_cenums known_leaf_collapses)). vm_cast_no_check (eq_refl true). Qed.
 
-Lemma tbl_nonzero : forall m, In m ffi_rmaps -> nonzero ffi_ok ffi_cenums known_zero m.
-Proof. apply (all_sound _ _ _ _ (nonzero_b_sound ffi_ok ffi_cenums known_zero)). vm_cast_no_check (eq_refl true). Qed.
+Lemma tbl_nonzero : forall m l, In m ffi_rmaps -> rm_is_error m = true -> In l (rm_leaves m) ->
+  leaf_code ffi_cenums l <> Some ffi_ok.
+Proof.
+  intros m l Hm He Hl Hc.
+  assert (T : forall m, In m ffi_rmaps -> nonzero ffi_ok ffi_cenums [] m).
+  { apply (all_sound _ _ _ _ (nonzero_b_sound ffi_ok ffi_cenums [])). vm_cast_no_check (eq_refl true). }
+  exact (T m Hm He l Hl Hc).
+Qed.
 
 Lemma tbl_names_distinct : forall c, In c ffi_cenums -> names_distinct known_dup_names c.
 Proof. apply (all_sound _ _ _ _ (names_distinct_b_sound known_dup_names)). vm_cast_no_check (eq_refl true). Qed.
@@ -75,41 +80,18 @@ Lemma tbl_codes_distinct : forall c, In c ffi_cenums -> codes_distinct c.
 Proof. apply (all_sound _ _ _ _ codes_distinct_b_sound). vm_cast_no_check (eq_refl true). Qed.
 
 (* ---- every exception is real ---- *)
-Lemma known_diverging_real : forall k, In k known_diverging ->
-  exists m l, In m ffi_rmaps /\ rm_name m = fst k /\ In l (rm_leaves m) /\ lf_name l = snd k /\ leaf_code ffi_cenums l = None.
-Proof. apply (all_sound _ _ _ _ (diverges_b_sound ffi_cenums ffi_rmaps)). vm_cast_no_check (eq_refl true). Qed.
-
-Lemma known_top_collisions_real : forall k, In k known_top_collisions ->
-  exists m a b z, In m ffi_rmaps /\ rm_name m = fst k /\ In a (rm_leaves m) /\ In b (rm_leaves m)
-    /\ leaf_cvariant a = snd k /\ leaf_code ffi_cenums a = Some z /\ leaf_code ffi_cenums b = Some z /\ lf_top a <> lf_top b.
-Proof. apply (all_sound _ _ _ _ (collapses_top_b_sound ffi_cenums ffi_rmaps)). vm_cast_no_check (eq_refl true). Qed.
-
 Lemma known_leaf_collapses_real : forall k, In k known_leaf_collapses ->
   exists m a b z, In m ffi_rmaps /\ rm_name m = fst k /\ In a (rm_leaves m) /\ In b (rm_leaves m)
     /\ leaf_cvariant a = snd k /\ leaf_code ffi_cenums a = Some z /\ leaf_code ffi_cenums b = Some z /\ lf_name a <> lf_name b.
 Proof. apply (all_sound _ _ _ _ (collapses_leaf_b_sound ffi_cenums ffi_rmaps)). vm_cast_no_check (eq_refl true). Qed.
-
-Lemma known_zero_real : forall k, In k known_zero ->
-  exists m l, In m ffi_rmaps /\ rm_name m = fst k /\ rm_is_error m = true /\ In l (rm_leaves m)
-    /\ leaf_cvariant l = snd k /\ leaf_code ffi_cenums l = Some ffi_ok.
-Proof. apply (all_sound _ _ _ _ (zero_b_sound ffi_ok ffi_cenums ffi_rmaps)). vm_cast_no_check (eq_refl true). Qed.
 
 Lemma known_dup_names_real : forall n, In n known_dup_names ->
   exists c, In c ffi_cenums /\ ce_name c = n /\ ce_cstr c = true /\ ~ NoDup (map cv_str (ce_variants c)).
 Proof. apply (all_sound _ _ _ _ (dupname_b_sound ffi_cenums)). vm_cast_no_check (eq_refl true). Qed.
 
 (* ---- the statements without exceptions are false of the current tables ---- *)
-Lemma tbl_total_full_refuted : ~ (forall m, In m ffi_rmaps -> total ffi_cenums [] m).
-Proof. apply (total_full_refuted _ _ ("PublishSubscribeOpenOrCreateError", "SystemInFlux")). vm_cast_no_check (eq_refl true). Qed.
-
 Lemma tbl_injective_leaf_full_refuted : ~ (forall m, In m ffi_rmaps -> injective_leaf ffi_cenums [] m).
 Proof. apply (injective_leaf_full_refuted _ _ ("SendError", "CONNECTION_ERROR")). vm_cast_no_check (eq_refl true). Qed.
-
-Lemma tbl_injective_top_full_refuted : ~ (forall m, In m ffi_rmaps -> injective_top ffi_cenums [] m).
-Proof. apply (injective_top_full_refuted _ _ ("ServiceRemoveError", "INTERRUPT")). vm_cast_no_check (eq_refl true). Qed.
-
-Lemma tbl_nonzero_full_refuted : ~ (forall m, In m ffi_rmaps -> nonzero ffi_ok ffi_cenums [] m).
-Proof. apply (nonzero_full_refuted _ _ _ ("ConnectionFailure", "FAILED_TO_ESTABLISH_CONNECTION")). vm_cast_no_check (eq_refl true). Qed.
 
 Lemma tbl_names_distinct_full_refuted : ~ (forall c, In c ffi_cenums -> names_distinct [] c).
 Proof. apply (names_distinct_full_refuted _ "iox2_pub_sub_open_or_create_error_e"). vm_cast_no_check (eq_refl true). Qed.
@@ -118,7 +100,6 @@ Proof. apply (names_distinct_full_refuted _ "iox2_pub_sub_open_or_create_error_e
 Lemma tbl_nonvacuous :
   exists m a b za zb sa sb,
     In m ffi_rmaps /\ rm_is_error m = true /\ In a (rm_leaves m) /\ In b (rm_leaves m)
-    /\ ~ In (rm_name m, lf_name a) known_diverging
     /\ leaf_code ffi_cenums a = Some za /\ leaf_code ffi_cenums b = Some zb
     /\ za <> ffi_ok /\ za <> zb /\ lf_name a <> lf_name b
     /\ leaf_str ffi_cenums a = Some sa /\ leaf_str ffi_cenums b = Some sb /\ sa <> sb /\ sa <> "".
